@@ -109,10 +109,12 @@ def confusion_cases():
     spec = optree.tree_structure({'a': (1, 2), 'b': [3]})
     leaf = optree.treespec_leaf()
     weird = [None, 0, -1, 2 ** 70, 'x', b'y', 1.5, object(), [], {}, (), [1, [2]], {'a': 1}, spec, leaf, lambda *a: None, type, int, ..., float('nan'),
-             range(3), iter([1, 2]), {1, 2}, collections.deque([1]), U.NT2(1, 2), U.SS2((1, 2)), U.CA([1], 1)]
+             range(3), iter([1, 2]), {1, 2}, collections.deque([1]), U.NT2(1, 2), U.SS2((1, 2)), U.CA([1], 1),
+             U.NT2, U.SS2, U.CA, U.SubList, [U.NT2, (U.SS2,)], {'cls': U.NT2, 'args': (1, 2)}]
     fns = {
         'tree_flatten(x, is_leaf=w)': lambda w: optree.tree_flatten([1, 2], w),
         'tree_flatten(w)': lambda w: optree.tree_flatten(w),
+        'tree_flatten_with_path(w)/iter/is_leaf': lambda w: (optree.tree_flatten_with_path(w), list(optree.tree_iter(w)), optree.tree_is_leaf(w), optree.all_leaves([w, 1])),
         'tree_flatten(x, namespace=w)': lambda w: optree.tree_flatten([1], namespace=w),
         'tree_flatten(x, none_is_leaf=w)': lambda w: optree.tree_flatten([1, None], none_is_leaf=w),
         'tree_unflatten(w, leaves)': lambda w: optree.tree_unflatten(w, [1, 2, 3]),
